@@ -262,6 +262,10 @@ pub fn run_schedule(roles: Vec<RoleFn>, prefix: &[usize], t_block: Duration) -> 
         }
         let nopt = parked.len();
         let mut c = if step < prefix.len() { prefix[step] } else { 0 };
+        if c >= 1000 {
+            // sampled schedule: any value is a valid choice
+            c = (c - 1000) % nopt;
+        }
         if c >= nopt {
             run.diverged = true;
             c = nopt - 1;
@@ -327,6 +331,8 @@ where
 {
     let mut out = ExploreOut::default();
     let mut prefix: Vec<usize> = vec![];
+    let mut sampling = false;
+    let mut sample_no = 0u64;
     loop {
         let (run, verdict) = scenario(&prefix);
         out.executed += 1;
@@ -354,9 +360,25 @@ where
                 out.violation = Some((prop, what, run.trace.clone(), prefix.clone()));
             }
         }
-        if out.violation.is_some() || out.executed >= max_schedules {
+        if out.violation.is_some() || out.executed >= max_schedules + max_schedules / 2 {
             out.complete = false;
             break;
+        }
+        if !sampling && out.executed >= max_schedules {
+            // the enumeration did not finish within its budget: it has varied the *end* of the schedule so
+            // far; spend half a budget more on sampled schedules, which also vary who moves first
+            sampling = true;
+        }
+        if sampling {
+            sample_no += 1;
+            let mut x = crate::common::mix(0x5eed, sample_no);
+            prefix = (0..64)
+                .map(|_| {
+                    x = crate::common::mix(x, 1);
+                    1000 + (x % 7919) as usize
+                })
+                .collect();
+            continue;
         }
         // next prefix
         let mut next: Option<Vec<usize>> = None;
